@@ -392,7 +392,7 @@ func evalPath(c *Case) Result {
 		}
 		g, _ := runAll(gc, base, q)
 		if len(g) != 1 || g[0].isErr {
-			if len(g) == 1 && strings.Contains(g[0].err, "cannot be applied to: string") {
+			if throughString(base, q) {
 				res.Family = "D10"
 			}
 			return fail("path-getpath-error", fmt.Sprintf("getpath(%s) gives %s;", show(q), showOuts(g)))
@@ -579,4 +579,58 @@ func sortedKeys(m map[string]any) []string {
 	}
 	sort.Strings(ks)
 	return ks
+}
+
+// throughString: the path q navigates into a string of v (gojq indexes and slices strings; getpath does not)
+func throughString(v any, q []any) bool {
+	for _, k := range q {
+		switch x := v.(type) {
+		case string:
+			return true
+		case []any:
+			f, ok := toF(k)
+			if !ok {
+				if m, ok := k.(map[string]any); ok {
+					s, _ := toF(m["start"])
+					e, eok := toF(m["end"])
+					n := float64(len(x))
+					if s < 0 {
+						s += n
+					}
+					if e < 0 {
+						e += n
+					}
+					if !eok || e > n {
+						e = n
+					}
+					if s < 0 {
+						s = 0
+					}
+					if s > e {
+						s = e
+					}
+					v = x[int(s):int(e)]
+					continue
+				}
+				return false
+			}
+			i := int(f)
+			if i < 0 {
+				i += len(x)
+			}
+			if i < 0 || i >= len(x) {
+				return false
+			}
+			v = x[i]
+		case map[string]any:
+			s, ok := k.(string)
+			if !ok {
+				return false
+			}
+			v = x[s]
+		default:
+			return false
+		}
+	}
+	return false
 }
